@@ -18,7 +18,9 @@ from ECAgent.Batching import ScoreMode
 BIG = 2 ** 70
 VALS = {'quick': [-BIG, 0, 1, BIG], 'thorough': [-BIG, -3, 0, 1, BIG, 2 * BIG]}
 FVALS = [-3.0, 0.0, 0.5, 1.0]
-FBIG = [1e9 + 1, 1e9 + 2, 1e9 + 6]        # large magnitude, small spread: exposes cancellation in one-pass formulas
+FBIG = [1e9 + 1, 1e9 + 2, 1e9 + 6]
+FHUGE = [1e308, 1.5e308]                  # finite scores whose sums overflow to inf (one sign only: a running float
+#                                           sum of mixed signs may overflow on the way although the exact sum is finite)        # large magnitude, small spread: exposes cancellation in one-pass formulas
 SHAPES = [('1', {'a': [1]}, 1), ('2', {'a': [1, 2]}, 2), ('3', {'a': [1, 2, 3]}, 3), ('2x2', {'a': [1, 2], 'b': [5, 6]}, 4)]
 
 META = {
@@ -26,7 +28,8 @@ META = {
             'with <= 6 cells; schedule leg: 30 selected tables x every SchedPool outcome; distinct_nontrivial counts '
             'distinct (shape, mode, table, best index) observations',
     'alphabet': {'values': {'quick': ['-2^70', 0, 1, '2^70'], 'thorough': ['-2^70', -3, 0, 1, '2^70', '2^71'],
-                            'float leg': FVALS, 'big float leg': FBIG},
+                            'float leg': FVALS, 'big float leg': FBIG, 'overflow leg': FHUGE},
+                 'parameter sources': ['list', 'generator', 'map', 'iterator', 'range', 'tuple'],
                  'shapes (combinations)': [s[0] for s in SHAPES], 'repetitions': '1..3 with combinations x repetitions '
                  '<= 6 (>= 2 for the variance modes)', 'modes': [m.name for m in ScoreMode],
                  'schedules': 'all outcomes for n <= 4 combinations, p in 2,3',
@@ -86,9 +89,19 @@ def exact(row, mode):
 def same_number(score, ex):
     if isinstance(score, bool) or not isinstance(score, (int, float, Fr)):
         return False
+    if isinstance(score, float) and (score != score or score in (float('inf'), float('-inf'))):
+        # an aggregate beyond the float range: the correctly rounded result is +-inf (nan never)
+        try:
+            float(ex)
+        except OverflowError:
+            return score == (float('inf') if ex > 0 else float('-inf'))
+        return abs(ex) > Fr(17976931348623157) * 10 ** 292 and score == (float('inf') if ex > 0 else float('-inf'))
     if Fr(score) == ex:
         return True
-    return isinstance(score, float) and score == ex.numerator / ex.denominator
+    try:
+        return isinstance(score, float) and score == ex.numerator / ex.denominator
+    except OverflowError:
+        return False
 
 
 def run_search(case, cache=None):
@@ -96,6 +109,12 @@ def run_search(case, cache=None):
     shape = {s[0]: s for s in SHAPES}[case['shape']]
     params = {k: list(v) for k, v in shape[1].items()}
     cs = combos(params)
+    given = dict(params)
+    src = case.get('source')
+    if src:
+        vals = list(params['a'])
+        given['a'] = {'generator': (v for v in vals), 'map': map(int, vals), 'iter': iter(vals),
+                      'range': range(1, len(vals) + 1), 'tuple': tuple(vals)}[src]
     reps, mode = case['reps'], ScoreMode(case['mode'])
     flat = case['table']
     conv = float if case.get('float') else (lambda v: v)
@@ -106,7 +125,7 @@ def run_search(case, cache=None):
         sched.install(Batching, (tuple(tuple(w) for w in oc[0]), tuple(oc[1])) if oc else None,
                       cache or sched.WorkerCache())
     try:
-        best, results = Batching.grid_search(GModel, params, TableScore(table), processes=procs, repetitions=reps,
+        best, results = Batching.grid_search(GModel, given, TableScore(table), processes=procs, repetitions=reps,
                                              mode=mode)
     finally:
         if procs != 1:
@@ -216,6 +235,18 @@ def serial_cases(tier):
                     continue
                 yield {'leg': 'serial_bigfloat', 'shape': name, 'reps': reps, 'mode': mode, 'table': list(flat),
                        'float': True}
+        if reps >= 2:
+            for sign in (1, -1):
+              for flat0 in itertools.product(FHUGE, repeat=nc * reps):
+                flat = [sign * v for v in flat0]
+                for mode in (0, 1, 4, 5):          # min / max / sums (mean and variance are not finite-safe here)
+                    yield {'leg': 'serial_overflow', 'shape': name, 'reps': reps, 'mode': mode, 'table': list(flat),
+                           'float': True}
+    # parameter values given as one-shot iterables (generator, map, iterator): each value still evaluated once
+    for src in ('generator', 'map', 'iter', 'range', 'tuple'):
+        for mode in (0, 1):
+            for flat in ([3, 1, 2], [1, 2, 3], [2, 3, 1]):
+                yield {'leg': 'serial_sources', 'shape': '3', 'reps': 1, 'mode': mode, 'table': flat, 'source': src}
 
 
 def selected_tables(nc, reps):
